@@ -7,6 +7,8 @@ import KinModel.Router
 import KinModel.RouterSpec
 import KinModel.Lemmas.C09Legacy
 import KinModel.Lemmas.C09Gorilla
+import KinModel.Lemmas.C09Spec
+import KinModel.Lemmas.C09Witness
 namespace KinModel.Props.C09
 open KinModel.Router
 
@@ -206,5 +208,174 @@ theorem inMatchingOrder_sorted (ps : List PathDecl) :
     (inMatchingOrder ps).Pairwise (fun a b => nvars a.template ≤ nvars b.template) ∧
     ∀ z, z ∈ inMatchingOrder ps ↔ z ∈ ps :=
   ⟨pairwise_inMatchingOrder ps, mem_inMatchingOrder ps⟩
+
+/-! ## the spec: executable oracle = declarative relation; coherence of the required outcome -/
+
+/-- the oracle's enumeration `smatchP` is exactly "non-empty slash-free values fill the template to a prefix" -/
+theorem spec_oracle_iff (toks : List STok) (s : Str) (vs : List Str) (rest : Str) :
+    (vs, rest) ∈ smatchP toks s ↔ Fills toks vs s rest := smatchP_iff toks s vs rest
+
+/-- every candidate of the spec is a declared template filled with good values that reproduces a remaining path -/
+theorem spec_cand_sound (method rem : Str) (pd : PathDecl) (c : Cand) (h : c ∈ candsFor method rem pd) :
+    c.template = pd.template ∧ c.declares = pd.methods.contains method ∧
+      ∃ vs, Fills (sparseS pd.template) vs rem [] ∧ c.params = (svarNames (sparseS pd.template)).zip vs := by
+  simp only [candsFor, List.mem_filterMap] at h
+  obtain ⟨⟨vs, rest⟩, hm, hc⟩ := h
+  split at hc
+  · rename_i hr
+    simp only at hr
+    subst hr
+    simp only [Option.some.injEq] at hc
+    subst hc
+    exact ⟨rfl, rfl, vs, (smatchP_iff _ _ _ _).1 hm, rfl⟩
+  · simp at hc
+
+/-- the spec requires path-not-found exactly when there is no candidate -/
+theorem spec_notFound_iff (e : Bool) (d : Doc) (r : Req) :
+    (specOutcome e d r).1 = .notFound ↔ specCands e d r = [] := by
+  unfold specOutcome
+  simp only
+  split
+  · rename_i h; simp [h]
+  · rename_i h
+    simp only [h, iff_false]
+    split
+    · simp
+    · split <;> simp
+
+/-- when the spec requires a route, every allowed route is a candidate that declares the method; and if a literal
+    candidate declares the method, only literal candidates are allowed ("a literal path wins") -/
+theorem spec_route_allowed (e : Bool) (d : Doc) (r : Req) (cs : List Cand) (h : specOutcome e d r = (.route, cs)) :
+    (∀ c ∈ cs, c ∈ specCands e d r ∧ c.declares = true) ∧
+    ((∃ c ∈ specCands e d r, isLiteralT c.template = true ∧ c.declares = true) → ∀ c ∈ cs, isLiteralT c.template = true) := by
+  unfold specOutcome at h
+  simp only at h
+  split at h
+  · simp at h
+  · split at h
+    · rename_i hl
+      simp only [Prod.mk.injEq, true_and] at h
+      subst h
+      refine ⟨?_, ?_⟩
+      · intro c hc
+        simp only [List.mem_filter, Bool.and_eq_true] at hc
+        exact ⟨hc.1, hc.2.2⟩
+      · intro _ c hc
+        simp only [List.mem_filter, Bool.and_eq_true] at hc
+        exact hc.2.1
+    · rename_i hl
+      split at h
+      · simp at h
+      · simp only [Prod.mk.injEq, true_and] at h
+        subst h
+        refine ⟨?_, ?_⟩
+        · intro c hc
+          simp only [List.mem_filter] at hc
+          exact hc
+        · rintro ⟨c0, hc0, h1, h2⟩
+          exfalso
+          apply hl
+          intro hnil
+          have : c0 ∈ List.filter (fun c => isLiteralT c.template && c.declares) (specCands e d r) := by
+            simp [List.mem_filter, hc0, h1, h2]
+          rw [hnil] at this
+          simp at this
+
+/-! ## witnesses: inside each exclusion class the modelled code really differs from the spec -/
+
+open W in
+/-- finding #14: legacy routes GET /b to /b/{x} with x = "" ; the property requires path-not-found -/
+theorem witness_legacy14_empty_binding :
+    legacyFind d14 (req "GET" "/b") = .route (s "/b/{x}") get [(s "x", [])] ∧
+    specOutcome true d14 (req "GET" "/b") = (.notFound, []) ∧
+    specAccepts d14 (req "GET" "/b") (legacyFind d14 (req "GET" "/b")) = false ∧
+    exclLegacy14 .legacy d14 (req "GET" "/b") = true ∧
+    gorillaFind d14 (req "GET" "/b") = .notFound := by decide +kernel
+
+open W in
+/-- finding #14: /a//c/1 is routed to /a/{x}/c/{y} with x = "" -/
+theorem witness_legacy14_double_slash :
+    legacyFind d14b (req "GET" "/a//c/1") = .route (s "/a/{x}/c/{y}") get [(s "x", []), (s "y", s "1")] ∧
+    specAccepts d14b (req "GET" "/a//c/1") (legacyFind d14b (req "GET" "/a//c/1")) = false ∧
+    exclLegacy14 .legacy d14b (req "GET" "/a//c/1") = true ∧
+    gorillaFind d14b (req "GET" "/a//c/1") = .notFound := by decide +kernel
+
+open W in
+/-- finding #14: the trailing slash of /a/zz/ is stripped and the request routed to /a/{x} -/
+theorem witness_legacy14_trailing_slash :
+    legacyFind d14c (req "GET" "/a/zz/") = .route (s "/a/{x}") get [(s "x", s "zz")] ∧
+    specAccepts d14c (req "GET" "/a/zz/") (legacyFind d14c (req "GET" "/a/zz/")) = false ∧
+    exclLegacy14 .legacy d14c (req "GET" "/a/zz/") = true ∧
+    gorillaFind d14c (req "GET" "/a/zz/") = .notFound := by decide +kernel
+
+open W in
+/-- finding #40: gorillamux answers method-not-allowed for GET /a/b; the spec (and the legacy router) route it to /a/{x} -/
+theorem witness_gorilla_shadow40 :
+    gorillaFind d40 (req "GET" "/a/b") = .methodNotAllowed ∧
+    specOutcome true d40 (req "GET" "/a/b") = (.route, [⟨s "/a/{x}", [(s "x", s "b")], true⟩]) ∧
+    specAccepts d40 (req "GET" "/a/b") (gorillaFind d40 (req "GET" "/a/b")) = false ∧
+    exclGorillaShadow40 .gorilla d40 (req "GET" "/a/b") = true ∧
+    legacyFind d40 (req "GET" "/a/b") = .route (s "/a/{x}") get [(s "x", s "b")] := by decide +kernel
+
+open W in
+/-- finding #33: both routers accept env = qa although enum = [prod, dev] -/
+theorem witness_srv_enum33 :
+    legacyFind d33 r33 = .route (s "/a") get [(s "env", s "qa")] ∧
+    gorillaFind d33 r33 = .route (s "/a") get [(s "env", s "qa")] ∧
+    specOutcome true d33 r33 = (.notFound, []) ∧
+    exclSrvEnum33 d33 r33 = true ∧
+    exclSrvEnum33 d33 r33ok = false ∧
+    specAccepts d33 r33ok (gorillaFind d33 r33ok) = true := by decide +kernel
+
+open W in
+/-- documented legacy limitation: /books/7.json is not routed to /books/{id}.json (gorillamux routes it) -/
+theorem witness_legacy_var_then_literal :
+    legacyFind dMid (req "GET" "/books/7.json") = .notFound ∧
+    gorillaFind dMid (req "GET" "/books/7.json") = .route (s "/books/{id}.json") get [(s "id", s "7")] ∧
+    (specOutcome true dMid (req "GET" "/books/7.json")).1 = .route ∧
+    exclLegacyVarThenLiteral .legacy dMid = true := by decide +kernel
+
+open W in
+/-- legacy URL form: a relative server does not match an absolute request URL (it does match the path-only form) -/
+theorem witness_legacy_url_form :
+    legacyFind dForm rFormAbs = .notFound ∧
+    (specOutcome true dForm rFormAbs).1 = .route ∧
+    exclLegacyURLForm .legacy dForm rFormAbs = true ∧
+    legacyFind dForm rFormRel = .route (s "/a") get [] ∧
+    exclLegacyURLForm .legacy dForm rFormRel = false ∧
+    gorillaFind dForm rFormAbs = .route (s "/a") get [] := by decide +kernel
+
+/-! ## non-vacuity: the hypotheses of the theorems are satisfiable on a non-trivial document -/
+
+open W in
+/-- both routers, family with shared prefixes, server with host and port variables and a trailing slash:
+    literal wins, two variables are extracted, mid-segment variable, unknown method, near miss -/
+example :
+    legacyFind dFam (rFam "GET" "/v1/a/b") = .route (s "/a/b") get [(s "env", s "dev"), (s "port", s "8443")] ∧
+    gorillaFind dFam (rFam "GET" "/v1/a/b") = .route (s "/a/b") get [(s "env", s "dev"), (s "port", s "8443")] ∧
+    legacyFind dFam (rFam "GET" "/v1/a/7/c/9") =
+      .route (s "/a/{x}/c/{y}") get [(s "env", s "dev"), (s "port", s "8443"), (s "x", s "7"), (s "y", s "9")] ∧
+    gorillaFind dFam (rFam "GET" "/v1/a/7/c/9") =
+      .route (s "/a/{x}/c/{y}") get [(s "env", s "dev"), (s "x", s "7"), (s "y", s "9"), (s "port", s "8443")] ∧
+    gorillaFind dFam (rFam "GET" "/v1/report.pdf") = .route (s "/report.{format}") get [(s "env", s "dev"), (s "format", s "pdf"), (s "port", s "8443")] ∧
+    legacyFind dFam (rFam "POST" "/v1/a/7") = .route (s "/a/{x}") post [(s "env", s "dev"), (s "port", s "8443"), (s "x", s "7")] ∧
+    specAccepts dFam (rFam "GET" "/v1/a/7/c/9") (legacyFind dFam (rFam "GET" "/v1/a/7/c/9")) = true ∧
+    specAccepts dFam (rFam "GET" "/v1/a/b") (gorillaFind dFam (rFam "GET" "/v1/a/b")) = true ∧
+    exclLegacy14 .legacy dFam (rFam "GET" "/v1/a/7/c/9") = false ∧
+    legacyFind dFam (rFam "FOO" "/v1/a/b") = .methodNotAllowed ∧
+    legacyFind dFam (rFam "GET" "/v2/a/b") = .notFound ∧
+    gorillaFind dFam (rFam "GET" "/v1/zz") = .notFound := by decide +kernel
+
+open W in
+/-- the hypotheses of `legacy_match_sound_partial` hold on a match with two non-empty bindings -/
+example : ∃ k vals, legacyMatch dFam get (s "/a/7/c/9") = some (k, vals) ∧ (∀ v ∈ vals, v ≠ []) ∧ vals.length = 2 :=
+  ⟨⟨get, s "/a/{x}/c/{y}"⟩, [s "7", s "9"], by decide +kernel, by decide +kernel, rfl⟩
+
+open W in
+/-- the hypotheses of `gorilla_route_complete_noservers_partial` (no shadowing route) hold for GET /a/zz on d40 -/
+example : ∃ rs, gorillaRoutes d40 = some rs ∧ (∀ r' ∈ rs, gRouteMatch r' (req "GET" "/a/zz") ≠ none → get ∈ r'.methods) ∧
+    gorillaFind d40 (req "GET" "/a/zz") = .route (s "/a/{x}") get [(s "x", s "zz")] := by
+  refine ⟨(gorillaRoutes d40).getD [], by decide +kernel, ?_, by decide +kernel⟩
+  decide +kernel
 
 end KinModel.Props.C09
